@@ -7,7 +7,7 @@ from typing import Any, Dict, List, Optional
 
 class SpecBuilder:
     def __init__(self, seed: int) -> None:
-        self.spec: Dict[str, Any] = {"seed": seed, "inputs": [], "params": [], "mods": [],
+        self.spec: Dict[str, Any] = {"seed": seed, "inputs": [], "params": [], "bufs": [], "mods": [],
                                      "prog": [], "outputs": []}
         self.shapes: Dict[str, List[int]] = {}
         self.kinds: Dict[str, str] = {}
@@ -32,6 +32,11 @@ class SpecBuilder:
     def param(self, shape: List[int], std: float = 1.0, mean: float = 0.0) -> str:
         n = self._name("p_")
         self.spec["params"].append({"name": n, "shape": list(shape), "std": std, "mean": mean})
+        return n
+
+    def buf(self, shape: List[int], kind: str) -> str:
+        n = self._name("b_")
+        self.spec["bufs"].append({"name": n, "shape": list(shape), "kind": kind})
         return n
 
     def mod(self, type_: str, *args: Any, **kwargs: Any) -> str:
